@@ -13,23 +13,33 @@
 (* is partly in the server's bufio buffer and partly not (HTTP).              *)
 (* Mutant switches: NoneOK (SOCKS5 accepts "no authentication" although an    *)
 (* AuthFunc is configured), AuthFirst = FALSE (HTTP dials before checking),   *)
-(* KeepBuffered = FALSE (HTTP drops the buffered tail).                       *)
+(* KeepBuffered = FALSE (HTTP drops the buffered tail), SharedBuf (one relay    *)
+(* buffer for both directions of a tunnel).                                    *)
 EXTENDS Prop_C18, TLC, Json
 
 CONSTANTS Proto,         \* "socks" | "http"
           NoneOK, AuthFirst, KeepBuffered,
+          SharedBuf,     \* TRUE (mutant): both relay directions of a tunnel copy through one buffer
           Cut            \* TRUE: also every proper prefix of every SOCKS5 stream
 
 VARIABLES authSet, noUDP, stream, meta,   \* the scenario
+          remote,                         \* what the upstream side sends while the first client bytes are being written
           pc, plan, k, mon
 
-vars == <<authSet, noUDP, stream, meta, pc, plan, k, mon>>
+vars == <<authSet, noUDP, stream, meta, remote, pc, plan, k, mon>>
 
 G == 103   \* 'g'   AuthFunc accepts user "g<digit>" with password "g"
 B == 98    \* 'b'
 GoodUser(u) == Len(u) = 2 /\ u[1] = G
 GoodPass(p) == p = <<G>>
 ReqOf(u) == IF Len(u) = 2 /\ u[2] \in 48..57 THEN u[2] - 48 ELSE 0
+
+\* The relay (handleTCP / handleConnect): client -> upstream in one goroutine, upstream -> client in another.  The first
+\* chunk d has been read from the client and its Write to the upstream is in flight when `remote` arrives from the
+\* upstream; with one shared buffer (mutant) the bytes being written are overwritten by it.
+Clobber(d) == IF SharedBuf /\ remote # <<>> THEN [i \in 1..Len(d) |-> IF i <= Len(remote) THEN remote[i] ELSE d[i]] ELSE d
+DownEv == IF remote = <<>> THEN <<>>
+          ELSE << [ev |-> "Down", scn |-> 0, conn |-> 1, sent |-> remote, got |-> remote, long |-> FALSE, prefixOk |-> TRUE] >>
 
 \* ================================================================= SOCKS5
 Greetings == { <<5,1,0>>, <<5,1,2>>, <<5,2,0,2>>, <<5,2,2,0>>, <<5,1,1>>, <<4,1,2>>, <<5,0>>, <<5,3,0,1>> }
@@ -85,7 +95,8 @@ SocksPlan(sc) ==
                                    user |-> r.auth[i].user, pass |-> r.auth[i].pass, ok |-> r.auth[i].ok]]
      \o (IF r.dial = "tcp" THEN << [ev |-> "HyTCP", scn |-> 0, conn |-> 1, req |-> 1] >>
          ELSE IF r.dial = "udp" THEN << [ev |-> "HyUDP", scn |-> 0, conn |-> 1, req |-> 1] >> ELSE <<>>)
-     \o (IF tail # <<>> THEN << [ev |-> "UpWrite", scn |-> 0, conn |-> 1, data |-> tail, n |-> Len(tail), match |-> TRUE] >> ELSE <<>>)
+     \o (IF tail # <<>> THEN << [ev |-> "UpWrite", scn |-> 0, conn |-> 1, data |-> Clobber(tail), n |-> Len(tail), match |-> TRUE] >> ELSE <<>>)
+     \o (IF r.dial = "tcp" THEN DownEv ELSE <<>>)
      \o << [ev |-> "ConnDone", scn |-> 0, conn |-> 1] >>
 
 \* ================================================================= HTTP
@@ -110,7 +121,8 @@ HttpLoop(rs, i) ==
            dialEv == << [ev |-> "HyTCP", scn |-> 0, conn |-> 1, req |-> i] >>
            up(d) == IF d = <<>> THEN <<>> ELSE << [ev |-> "UpWrite", scn |-> 0, conn |-> 1, data |-> d, n |-> Len(d), match |-> TRUE] >>
            body == IF rq.kind = "connect"
-                   THEN dialEv \o (IF KeepBuffered THEN up(rq.buf) ELSE <<>>) \o up(rq.later)
+                   THEN dialEv \o (IF KeepBuffered THEN up(Clobber(rq.buf)) ELSE <<>>)
+                               \o up(IF rq.buf = <<>> \/ ~KeepBuffered THEN Clobber(rq.later) ELSE rq.later) \o DownEv
                    ELSE dialEv \o (IF rq.keep THEN HttpLoop(rs, i + 1) ELSE <<>>)
        IN IF AuthFirst THEN authEv \o (IF pass THEN body ELSE <<>>)
           ELSE dialEv \o authEv \o (IF pass THEN Tail(body) ELSE <<>>)      \* mutant: dial, then check
@@ -131,7 +143,7 @@ HttpPlan(rs) ==
      \o evs \o << [ev |-> "ConnDone", scn |-> 0, conn |-> 1] >>
 
 \* ================================================================= behaviour
-Init == /\ authSet \in BOOLEAN /\ noUDP \in BOOLEAN
+Init == /\ authSet \in BOOLEAN /\ noUDP \in BOOLEAN /\ remote \in {<<>>, <<33, 34, 35>>}
         /\ IF Proto = "socks" THEN \E sc \in SocksScenarios : stream = sc.bytes /\ meta = sc.presented
                               ELSE \E rs \in HttpScenarios : stream = rs /\ meta = <<>>
         /\ pc = "start" /\ plan = <<>> /\ k = 1 /\ mon = MonInit
@@ -139,18 +151,18 @@ Init == /\ authSet \in BOOLEAN /\ noUDP \in BOOLEAN
 Start == /\ pc = "start"
          /\ plan' = IF Proto = "socks" THEN SocksPlan([bytes |-> stream, presented |-> meta]) ELSE HttpPlan(stream)
          /\ pc' = "run"
-         /\ UNCHANGED <<authSet, noUDP, stream, meta, k, mon>>
+         /\ UNCHANGED <<authSet, noUDP, stream, meta, remote, k, mon>>
 
 Step == /\ pc = "run" /\ k <= Len(plan)
         /\ mon' = MonStep(mon, plan[k], 0)
         /\ k' = k + 1
-        /\ UNCHANGED <<authSet, noUDP, stream, meta, pc, plan>>
+        /\ UNCHANGED <<authSet, noUDP, stream, meta, remote, pc, plan>>
 
 Next == Start \/ Step
 Spec == Init /\ [][Next]_vars
 
 NoViolation == mon.viol = {}
 PrintScn == (pc = "run" /\ k = 2) =>
-   PrintT(<<"SCN", ToJson([proto |-> Proto, authSet |-> authSet, noUDP |-> noUDP, stream |-> stream,
+   PrintT(<<"SCN", ToJson([proto |-> Proto, authSet |-> authSet, noUDP |-> noUDP, stream |-> stream, remote |-> remote,
                            conn |-> plan[1]])>>)
 =============================================================================
